@@ -15,6 +15,7 @@ def run(run):
     gsm.bfs_slice(run, 'C13', 4 if quick else 5, keep=KEEP)
     # pruning a graph that was saved and loaded (node order of the file), and after an attacker gave up an entry point
     gsm.bfs_slice(run, 'C13L', 5 if quick else 6, keep=KEEP, env={'VERIF_TOUCH': 'label'})
+    gsm.bfs_slice(run, 'C13D', 5 if quick else 6, keep=KEEP)      # a viable, unnecessary step that carries a TTC distribution is pruned, too
     gsm.simulate(run, 'C13', 12, 3000 if quick else 50000, keep=KEEP, lang='LDef', timeout=300 if quick else 1800)
     gsm.simulate(run, 'ALL', 14, 2000 if quick else 30000, keep=KEEP, timeout=300 if quick else 1800)
     gsm.simulate(run, 'C13', 10, 1500 if quick else 20000, keep=KEEP, lang='LSet', timeout=300 if quick else 1800)
